@@ -43,6 +43,10 @@ def _add_dependency_meta(graph: Graph, recalculate: bool = False) -> None:
 
 
 def _is_add(n: Node) -> bool:
+    # `a + b`, `a += b` and `torch.add(a, b)` are builtin functions named add / iadd;
+    # `a.add(b)` and `a.add_(b)` are method calls
+    if n.op == "call_method":
+        return n.target in ["add", "add_"]
     return (
         n.op == "call_function"
         and isinstance(n.target, BuiltinFunctionType)
@@ -126,7 +130,8 @@ def unit_scaling_backend(
                         "replacing function: %s with %s", node, target_fn.__name__
                     )
                     replace_node_with_function(graph, node, target_fn)
-                elif node.target in U.torch_map:
+                elif node.target in U.torch_map and not _is_add(node):
+                    # (additions are classified as residual / regular adds below)
                     target_fn = U.torch_map[node.target]
                     logger.info("unit scaling function: %s", node)
                     # nn.Softmax passes the private `_stacklevel` argument of F.softmax
